@@ -311,7 +311,7 @@ func c07HostileFrame(g *prng.Rng, k int) []byte {
 	if g.Bool() {
 		flg |= 0x04
 	}
-	switch k % 10 {
+	switch k % 11 {
 	case 0: // block size 2^31-1
 		hdr(flg, bd, 0, false)
 		b = binary.LittleEndian.AppendUint32(b, 0x7FFFFFFF)
@@ -349,14 +349,27 @@ func c07HostileFrame(g *prng.Rng, k int) []byte {
 		b = binary.LittleEndian.AppendUint32(b, uint32(len(blk)))
 		b = append(b, blk...)
 		b = append(b, 0, 0, 0, 0)
-	case 6: // skippable frame longer than the input
+	case 6: // skippable frame longer than the input / zero-length skippable frames and nothing else
 		b = binary.LittleEndian.AppendUint32(b, ref.MagicSkip+uint32(g.N(16)))
-		b = binary.LittleEndian.AppendUint32(b, uint32(g.Pick(0xFFFFFFFF, 0x7FFFFFFF, 1000)))
-		b = append(b, g.Bytes(50)...)
+		l := uint32(g.Pick(0xFFFFFFFF, 0x7FFFFFFF, 0x80000000, 1000, 0, 0))
+		b = binary.LittleEndian.AppendUint32(b, l)
+		if l != 0 {
+			b = append(b, g.Bytes(50)...)
+		} else if g.Bool() {
+			b = binary.LittleEndian.AppendUint32(b, ref.MagicSkip)
+			b = binary.LittleEndian.AppendUint32(b, 0)
+		}
 	case 7: // legacy frame with an oversized block
 		b = binary.LittleEndian.AppendUint32(b, ref.MagicLegacy)
 		b = binary.LittleEndian.AppendUint32(b, uint32(g.Pick(0x7FFFFFFF, 8<<20+1, 0xFFFFFFFF, 0x80000000)))
 		b = append(b, g.Bytes(64)...)
+	case 9: // legacy frame: a valid block, then a trailing word 0 / the decoded size / garbage
+		b = binary.LittleEndian.AppendUint32(b, ref.MagicLegacy)
+		b = append(b, 3, 0, 0, 0, 0x20, 'h', 'i')
+		b = binary.LittleEndian.AppendUint32(b, uint32(g.Pick(0, 2, 0, 0xFFFFFFFF)))
+		if g.Bool() {
+			b = append(b, g.Bytes(g.N(9))...)
+		}
 	case 8: // legacy frame: tiny block expanding a lot (run)
 		b = binary.LittleEndian.AppendUint32(b, ref.MagicLegacy)
 		blk := []byte{0x1F, 'x', 1, 0}
